@@ -605,7 +605,11 @@ def check_c14(run, drv, ncases, start=0):
 
 def main(prop, tier, seed):
     run = common.Run(prop, tier, seed)
-    aud = common.audit(prop, thorough=(tier == "thorough"))
+    if prop == "C14":
+        # second tie: wrapped_difference is re-translated from the source on every run
+        aud = common.audit_with_spec(prop, ["C02Gen"], thorough=(tier == "thorough"))
+    else:
+        aud = common.audit(prop, thorough=(tier == "thorough"))
     common.use_repo_source()
     thorough = tier == "thorough"
     drv = common.Driver()
